@@ -77,11 +77,25 @@ func main() {
 	if *thorough {
 		nseeds = 25
 	}
+	si0 := 0
 	for _, p := range mlkemref.All {
+		si0++
 		sch := schemes[p.Name]
 		seeds := [][]byte{make([]byte, 64), bytes.Repeat([]byte{0xff}, 64)}
 		for i := 0; i < nseeds; i++ {
 			seeds = append(seeds, vlib.Bytes(rng, 64))
+		}
+		// boundary seeds: one matrix entry (each position in turn over the runs: here two per run, all in thorough) needs more than three
+		// SHAKE128 blocks, resp. more than 510 bytes, of its stream
+		for pos := 0; pos < p.K*p.K; pos++ {
+			if !*thorough && pos != int(*seed+int64(si0))%(p.K*p.K) && pos != p.K*p.K-1 {
+				continue
+			}
+			for _, nb := range []int{504, 510} {
+				if d := p.BoundarySeed(vlib.Bytes(rng, 32), pos/p.K, pos%p.K, nb, 20000); d != nil {
+					seeds = append(seeds, append(d, vlib.Bytes(rng, 32)...))
+				}
+			}
 		}
 		for si, sd := range seeds {
 			refEk, refDk := p.KeyGen(sd[:32], sd[32:])
